@@ -68,7 +68,7 @@ def run(chk):
         chk.evaluations += 1
         t = c.split()
         chk.count(t[0])
-        if a.startswith(("PANIC", "CRASH", "TIMEOUT")):
+        if a.startswith(("PANIC", "CRASH", "TIMEOUT", "HANG")):
             chk.monitor_fail("code generation or a typed call panicked", dict(case=c[:500], impl=a[:200]))
             continue
         if t[0] == "gen":
